@@ -596,7 +596,16 @@ def check_stosoo(ctx):
                 ra = list(ra) + [bm]
             if ("<=", "self.b_max", vv) in ea:
                 ea = list(ea) + [bm]
-    okh = norm_src(rets[0].value) == "%s.get_cpoint()" % sel and ("<", "%s.get_visited_times()" % sel, "self.k") in ra and bm in ra
+    ret_src = norm_src(rets[0].value)
+    rv = rets[0].value
+    if isinstance(rv, ast.Call) and isinstance(rv.func, ast.Attribute) and isinstance(rv.func.value, ast.Name) and not rv.args and not rv.keywords:
+        # the cell is handed out through a local bound to it just before (`node = <winner>; return node.get_cpoint()`)
+        fc = CS.FnCtx(model, E.Effects(model), "StoSOO", pull)
+        rn = fc.node_of(rets[0])
+        ds, entry = fc.reaching(rv.func.value.id, rn)
+        if not entry and len(ds) == 1 and ds[0][1][0] == "assign" and not fc.stores_between(ds[0][0], rn, CS.deps(ds[0][1][1]), ()):
+            ret_src = "%s.%s()" % (norm_src(ds[0][1][1]), rv.func.attr)
+    okh = ret_src == "%s.get_cpoint()" % sel and ("<", "%s.get_visited_times()" % sel, "self.k") in ra and bm in ra
     ctx.ob("R08-ONCE", okh, c.file, q, norm_src(rets[0]), "the max-b leaf is handed out only while evaluated fewer than k times (and b >= b_max)" if okh
            else "guards %s" % ra, rets[0].lineno)
     oke = norm_src(get_arg(sites[0], 0, "parent")) == sel and ("<=", "self.k", "%s.get_visited_times()" % sel) in ea and bm in ea
